@@ -6,7 +6,8 @@ From MptV Require Import Base.Mem Cobs.CobsModel.
 Local Open Scope nat_scope.
 
 Inductive sop := SSend (m : list byte) | SPart (m : list byte) | SFin | SWire (n : nat) | SRecv | SDrain
-  | SPeek (n : nat) (dst : bool).   (* mpt_queue_peek on the reader: no effect on what is delivered *)
+  | SPeek (n : nat) (dst : bool)    (* mpt_queue_peek on the reader: no effect on what is delivered *)
+  | SRaw (bytes : list byte).      (* arbitrary bytes put into the reader ring (C03: malformed input) *)
 
 Record spec_st := mkss { sent : list (list byte); cur : list byte; open_ : bool }.
 
